@@ -14,7 +14,7 @@ ID = 'C01'
 LEVEL = 'exploration'
 
 OPCODES = [(1, 1), (5, 3), (0xA, 4), (0x15, 5), (0xC3, 8), (0xABC, 12), (0xBEEF, 16)]
-SUFFIXES = [None, (1, 1), (5, 3), (0x3C, 8)]
+SUFFIXES = [None, (1, 1), (5, 3), (0x3C, 8), (0x1A5, 9), (0xBEE5, 16)]      # suffixes wider than a byte have a byte order
 ARG_WIDTHS = [1, 3, 4, 7, 8, 9, 12, 15, 16, 17, 24, 32, 63, 64]
 CODE_SIZES = [1, 2, 3, 4, 7, 8]
 BASES = [0x200, 0x3FF]
@@ -30,7 +30,7 @@ def frames(tier, part):
     for de in ('big', 'little'):
         if part == 'A':
             ops = OPCODES
-            sufs = [None, SUFFIXES[2], SUFFIXES[3]] if q else SUFFIXES
+            sufs = [None, SUFFIXES[2], SUFFIXES[4]] if q else SUFFIXES
         else:
             ops = [OPCODES[0], OPCODES[2], OPCODES[5]] if q else OPCODES
             sufs = [None, SUFFIXES[1]] if q else SUFFIXES
@@ -179,6 +179,7 @@ def run_batch(acc, instrs, de, clause, yaml=False):
         out = acc.run(case)
         ok = out.status == 'OK' and out.image == bytes(expected)
         if not ok:
+            before = acc.nviol
             # isolate: every statement on its own, at its own address
             for ins, combo, a, text, data in stmts:
                 single = Case(G.build_isa([ins], de), '\n'.join([f'{k} = {v}' for k, v in sorted(consts.items())] +
@@ -188,6 +189,12 @@ def run_batch(acc, instrs, de, clause, yaml=False):
                 m = judge(spec, [o])
                 if m:
                     acc.violation([single], spec, f'{text!r} at {a:#x}: {m}', [o])
+            if acc.nviol == before:
+                # every statement is right on its own (own definition, own assembly) but the sequence is not: the encoding
+                # depends on the other statements or on the other instructions of the definition
+                spec = {'expect': 'OK', 'image_hex': bytes(expected).hex(), 'statement': 'the whole sequence', 'address': base}
+                acc.violation([case], spec, 'statements encoded as prescribed one by one are encoded differently in sequence: '
+                              + str(judge(spec, [out])), [out])
         for ins, combo, a, text, data in stmts:
             nbits = sum(f[1] for f in ins.fields(de, combo, a)[0])
             nt = (nbits % 8 != 0) or len(ins.shapes) >= 2 or any(sh['endian'] for sh in ins.shapes) or ins.opcode_endian
